@@ -13,3 +13,7 @@ pub assume_specification<T, E>[ Result::<T, E>::unwrap_or ](r: Result<T, E>, d: 
 pub assume_specification<T, E, F: FnOnce(&E)>[ Result::<T, E>::inspect_err ](r: Result<T, E>, f: F) -> (o: Result<T, E>)
     requires r matches Err(e) ==> f.requires((&e,)),
     ensures o == r;
+// Result::or_else (std documentation): calls op on the error, otherwise returns the Ok value unchanged
+pub assume_specification<T, E, F, O: FnOnce(E) -> Result<T, F>>[ Result::<T, E>::or_else ](r: Result<T, E>, op: O) -> (o: Result<T, F>)
+    requires r matches Err(e) ==> op.requires((e,)),
+    ensures r matches Ok(t) ==> o == Ok::<T, F>(t), r matches Err(e) ==> op.ensures((e,), o);
